@@ -12,6 +12,28 @@ from pyvc.api import *
 TR = "common.transform"
 
 
+def label_tasks(P):
+    """frame labels given as strings (either case) or as members select the same member (run by C20, where FrameID.from_value is under contract)"""
+    idx = P.index
+    HM = idx.lookup(f"{TR}:HomogeneousMatrix")
+    FID = TEnum(idx.lookup("common.schema:FrameID"))
+    vec = lambda it, n: VTuple([VReal(it.ctx.fresh(f"{n}{i}", R)) for i in "xyz"])
+    for kinds in (("str", "str"), ("str", "enum"), ("enum", "str")):
+        params = {"self": lambda it: it.ctx.new_cell("obj", {}, HM), "position": lambda it: vec(it, "p"), "rotation": TOpaque("quaternion")}
+        ens = []
+        for pn, k in zip(("src", "dst"), kinds):
+            if k == "str":
+                params[pn] = TStr()
+                ens += [(f"{pn}_string_selects_the_member", f"all([implies(lower({pn}) == m.value or {pn} == m.value, self.{pn} is m) for m in FrameID])"),
+                        (f"{pn}_is_a_member", f"isinstance(self.{pn}, FrameID)")]
+            else:
+                params[pn] = FID
+                ens += [(f"{pn}_enum_is_kept", f"self.{pn} is {pn}")]
+        unknown = " or ".join(f"not any([lower({pn}) == m.value or {pn} == m.value for m in FrameID])" for pn, k in zip(("src", "dst"), kinds) if k == "str")
+        P.verify(f"{TR}:HomogeneousMatrix.__init__", name=f"HomogeneousMatrix.__init__[{kinds[0]},{kinds[1]}]",
+                 contract=Contract(f"{TR}:HomogeneousMatrix.__init__", cut=False, params=params, ensures=ens, raises={"ValueError": unknown}))
+
+
 def build(P):
     idx = P.index
     P.min_obligations = 25
